@@ -257,7 +257,17 @@ def check(run, F, tier):
             if kind == "publish" and "RequestSendPacket" in w and any(e[0] == "enter" and e[1].endswith("process_send_%s_pubrec" % ver) for e in p.effects):
                 continue
             sts = ",".join(sorted(conn.status_at_entry(F, p)))
-            bad.setdefault("returns %s with status=%s" % (w, sts), p)
+            # what the path had established about the connection's sets (`id already in qos2_publish_handled`): part of the
+            # identity of the case, so that a recorded finding does not cover a different swallow in the same handler
+            mem = set()
+            for k_, c_ in p.cons.items():
+                ke = conn.expand_all(res["interned"], k_)
+                if ke[0] == "call" and ke[1].split("::")[-1] in ("contains", "insert", "contains_key") and ke[2] and c_[0] == "eq":
+                    sp = re.search(r"\('init', \('self',\), \(\('f', \d+, '(\w+)'\)", repr(ke[2][0]))
+                    if sp:
+                        present = (c_[1] == 1) if ke[1].endswith("contains") or ke[1].endswith("contains_key") else (c_[1] == 0)
+                        mem.add("%s:%s" % (sp.group(1), "present" if present else "absent"))
+            bad.setdefault("returns %s with status=%s%s" % (w, sts, (" " + ",".join(sorted(mem))) if mem else ""), p)
         key = f["name"]
         if bad:
             for pr, p in sorted(bad.items()):
